@@ -69,16 +69,20 @@ class CascadeChecker:
             # The key material here comes from a certificate, i.e. it is public.
             # Using it as an HMAC secret would let anyone forge the signature.
             return False
-        elif sig_ptrs.signature_info.signature_type == SignatureType.SHA256_WITH_RSA:
-            pub_key = RSA.import_key(bytes(pub_key_bits))
-            return verify_rsa(pub_key, sig_ptrs)
-        elif sig_ptrs.signature_info.signature_type == SignatureType.SHA256_WITH_ECDSA:
-            pub_key = ECC.import_key(bytes(pub_key_bits))
-            return verify_ecdsa(pub_key, sig_ptrs)
-        elif sig_ptrs.signature_info.signature_type == SignatureType.ED25519:
-            pub_key = ECC.import_key(bytes(pub_key_bits))
-            return verify_ed25519(pub_key, sig_ptrs)
-        else:
+        try:
+            if sig_ptrs.signature_info.signature_type == SignatureType.SHA256_WITH_RSA:
+                pub_key = RSA.import_key(bytes(pub_key_bits))
+                return verify_rsa(pub_key, sig_ptrs)
+            elif sig_ptrs.signature_info.signature_type == SignatureType.SHA256_WITH_ECDSA:
+                pub_key = ECC.import_key(bytes(pub_key_bits))
+                return verify_ecdsa(pub_key, sig_ptrs)
+            elif sig_ptrs.signature_info.signature_type == SignatureType.ED25519:
+                pub_key = ECC.import_key(bytes(pub_key_bits))
+                return verify_ed25519(pub_key, sig_ptrs)
+            else:
+                return False
+        except ValueError:
+            # The key is not of the kind the signature type claims
             return False
 
     def __init__(self, app: NDNApp, trust_anchor: BinaryStr, storage: PublicKeyStorage | None = None):
